@@ -2,6 +2,7 @@ import sys
 import time
 import collections
 import operator
+import urllib.parse
 from email.errors import HeaderParseError
 from http.cookies import SimpleCookie, CookieError
 
@@ -798,6 +799,16 @@ class Request(object):
         host = dict.get(headers, 'Host')
         if not host:
             host = self.local.name or self.local.ip
+        else:
+            try:
+                # The base URL of the request is built from this value.
+                # An authority urllib cannot split (unbalanced IPv6
+                # brackets) would make every later urljoin() - any
+                # HTTPRedirect, cherrypy.url() - fail with ValueError.
+                urllib.parse.urlsplit('//' + host)
+            except ValueError:
+                raise cherrypy.HTTPError(
+                    400, 'The Host request header is malformed.')
         self.base = '%s://%s' % (self.scheme, host)
 
     def get_resource(self, path):
